@@ -162,6 +162,16 @@ def Setup.refStep (u : Setup) (s : St) : RefStep :=
       | some t => .exec name word t
       | none => .undefined
 
+/-- for a step that `refStep` puts out of scope as "wrap": the instruction and its access `[a, a+n)`, `a + n ≥ 2^64` -/
+def Setup.wrapAccess (u : Setup) (s : St) : String × Nat × Nat :=
+  let word := (List.range 4).foldl (fun acc i => acc + (blockByte? u.code (s.pc + i)).getD 0 * 256 ^ i) 0
+  match decode 64 true true word with
+  | none => ("?", 0, 0)
+  | some name =>
+    match accessRange 64 name word s with
+    | some (a, n) => (name, a, n)
+    | none => (name, 0, 0)
+
 /-! ### what was observed of one step of the implementation -/
 
 inductive Req where
@@ -297,6 +307,46 @@ def judgeStep03 (i : Nat) (name : String) (word : Nat) (pre post : St) (refWritt
           else some s!"memory write at {m.addr} reported as {m.bytes.map (·.toNat)}, reference {bytesAt post a n}"
         | l => some s!"{l.length} memory writes reported, reference 1"
   (ipBad <|> regBad <|> memBad <|> missBad <|> rlBad <|> rsBad <|> mlBad <|> msBad).map (at_ ++ ·)
+
+/-- what was observed of a step that failed with the error of an access leaving the address space (F45) -/
+structure ErrObs where
+  addr : Nat
+  w : Nat
+  reqs : List Req
+  /-- the register map after the failed step -/
+  regs : List (String × Held)
+  /-- the bytes of the writable layer after the failed step -/
+  wbytes : List (Nat × Option Nat)
+
+/-- C03 on a step whose access `[a, a+n)` does not fit the address space (`a + n ≥ 2^64`): `Step` must fail with
+the error naming that access, and the ARCHITECTURAL state must be the reference's state BEFORE the step: the
+instruction pointer is not advanced, every register the state holds has the reference's value (a register the
+provider supplied during the failed step has the value the reference machine holds for it, by construction of
+the reference's initial state), every byte of the writable layer — written earlier by the program or supplied —
+has the reference's value, and everything the reference wrote earlier is still there. -/
+def judgeAccessErr03 (i : Nat) (name : String) (a n : Nat) (pre : St) (refWritten : List Nat) (o : ErrObs) :
+    Option String :=
+  let at_ := s!"step {i} ({name}, access [{a},+{n}) outside the address space): "
+  let accBad := if o.addr == a && o.w == n then none
+    else some s!"the error names the access [{o.addr},+{o.w})"
+  let ipBad := match o.regs.lookup ipKey with
+    | some (some (_, v)) => if v == pre.pc then none else some s!"instruction pointer {v} after the failed step, before it {pre.pc}"
+    | _ => some "no instruction pointer in the state"
+  let regBad := o.regs.findSome? fun (k, h) =>
+    match h, regOf pre k with
+    | _, none => some s!"the state holds the unknown register {k}"
+    | none, _ => some s!"register {k} does not hold a constant"
+    | some (cw, v), some r =>
+      if cw ≥ 8 then (if v == r then none else some s!"register {k} = {v} after the failed step, reference {r}")
+      else if v == r % 2 ^ (8 * cw) then none
+      else some s!"register {k} = {v} ({cw} bytes) after the failed step, reference {r}"
+  let memBad := o.wbytes.findSome? fun (x, v) =>
+    match v with
+    | none => some s!"memory byte {x} is not a constant"
+    | some b => if b == pre.mem x % 256 then none else some s!"memory[{x}] = {b} after the failed step, reference {pre.mem x % 256}"
+  let missBad := refWritten.findSome? fun x =>
+    if o.wbytes.any (·.1 == x) then none else some s!"memory[{x}] was written by the reference but is not in the state"
+  (accBad <|> ipBad <|> regBad <|> memBad <|> missBad).map (at_ ++ ·)
 
 /-! ### C04: the provider log -/
 
